@@ -88,9 +88,10 @@ type PropSpec struct {
 
 // Which library-defined properties may be sprinkled: a check passes the ones its renderer is documented NOT to read.
 const (
-	NoiseSkipable  = 1 << iota // properties.Skipable (documented for JSON only)
-	NoiseAlign                 // align.PropertyType (documented for text tables and Markdown only)
-	NoiseCallbacks             // callbacks that do nothing, on the table or column 0
+	NoiseSkipable       = 1 << iota // properties.Skipable (documented for JSON only)
+	NoiseAlign                      // align.PropertyType (documented for text tables and Markdown only)
+	NoiseCallbacks                  // callbacks that do nothing, on the table or column 0
+	NoiseAlignElsewhere             // align.PropertyType with alignment values on the table, on rows and on cells: anywhere but on columns
 )
 
 func (p *PropSpec) key() interface{} {
@@ -616,7 +617,7 @@ func (r *R) Table(o TableOpts) TableSpec {
 			*slots[a], *slots[b] = StrItem(tw[0]), StrItem(tw[1])
 		}
 	}
-	if o.Noise&(NoiseSkipable|NoiseAlign) != 0 && r.Chance(1, 3) {
+	if o.Noise&(NoiseSkipable|NoiseAlign|NoiseAlignElsewhere) != 0 && r.Chance(1, 3) {
 		s.Props = r.noise(&s, o.Noise)
 	}
 	if o.Noise != 0 && r.Chance(1, 6) {
@@ -728,15 +729,23 @@ func (r *R) echo(s *TableSpec) {
 
 // noise draws 1-3 properties that belong to another renderer, or to nobody.
 func (r *R) noise(s *TableSpec, which int) []PropSpec {
-	type kv struct{ k, v string }
+	type kv struct {
+		k, v      string
+		elsewhere bool
+	}
 	var pool []kv
+	if which&NoiseAlignElsewhere != 0 {
+		// the alignment key with genuine alignment values, but on owners where no statement gives it a meaning:
+		// the table, a row, a cell (columns are where alignment lives)
+		pool = append(pool, kv{"align.PropertyType", "align.Right", true}, kv{"align.PropertyType", "align.Center", true}, kv{"align.PropertyType", "align.Right", true}, kv{"align.PropertyType", "align.Left", true})
+	}
 	if which&NoiseSkipable != 0 {
-		pool = append(pool, kv{"properties.Skipable", "true"}, kv{"properties.Skipable", "true"}, kv{"properties.Skipable", "true"}, kv{"properties.Skipable", "false"})
+		pool = append(pool, kv{k: "properties.Skipable", v: "true"}, kv{k: "properties.Skipable", v: "true"}, kv{k: "properties.Skipable", v: "true"}, kv{k: "properties.Skipable", v: "false"})
 	}
 	if which&NoiseAlign != 0 {
-		pool = append(pool, kv{"align.PropertyType", "align.Left"}, kv{"align.PropertyType", "align.Center"}, kv{"align.PropertyType", "align.Right"}, kv{"align.PropertyType", "align.Right"})
+		pool = append(pool, kv{k: "align.PropertyType", v: "align.Left"}, kv{k: "align.PropertyType", v: "align.Center"}, kv{k: "align.PropertyType", v: "align.Right"}, kv{k: "align.PropertyType", v: "align.Right"})
 	}
-	pool = append(pool, kv{"skipable", "true"}, kv{"type", "align.Right"}, kv{"int 0", "whatever"}, kv{"column.Name", "a name given to the column"})
+	pool = append(pool, kv{k: "skipable", v: "true"}, kv{k: "type", v: "align.Right"}, kv{k: "int 0", v: "whatever"}, kv{k: "column.Name", v: "a name given to the column"})
 	ncols := s.NCols()
 	var out []PropSpec
 	for n := r.Range(1, 3); n > 0; n-- {
@@ -747,7 +756,11 @@ func (r *R) noise(s *TableSpec, which int) []PropSpec {
 			out = append(out, p)
 			continue
 		}
-		switch r.Intn(10) {
+		sel := r.Intn(10)
+		if c.elsewhere {
+			sel %= 3
+		}
+		switch sel {
 		case 0:
 			p.Owner = "table"
 		case 1:
